@@ -107,25 +107,32 @@ Definition nums_of (l : list value) : list num :=
 Definition strs_of (l : list value) : list bytes :=
   flat_map (fun v => match v with VStr s => [s] | _ => [] end) l.
 
-(* the first element that no other element beats *)
-Fixpoint first_best {A} (better : A -> A -> bool) (l : list A) : option A :=
+(* scan from the left, keep the best so far, replace it only by a strictly better
+   element: the first extremal element (Proofs/FunFacts.v: first_best_spec) *)
+Definition first_best {A} (better : A -> A -> bool) (l : list A) : option A :=
   match l with
   | [] => None
-  | x :: r => match first_best better r with
-              | Some y => if better y x then Some y else Some x
-              | None => Some x
-              end
+  | x :: r => Some (fold_left (fun best y => if better y best then y else best) r x)
   end.
 
-(* keys of a by-function: all numbers or all strings, else an error *)
+(* keys of a by-function: evaluated element by element, left to right; every key
+   must be of the kind (number or string) of the first one, else an error *)
 Inductive keys := KNum (ks : list (num * value)) | KStr (ks : list (bytes * value)).
+Definition num_key (f : value -> outcome value) (x : value) : outcome (num * value) :=
+  k <- f x ;; match k with VNum n => Ok (n, x) | _ => Err EEval end.
+Definition str_key (f : value -> outcome value) (x : value) : outcome (bytes * value) :=
+  k <- f x ;; match k with VStr s => Ok (s, x) | _ => Err EEval end.
 Definition by_keys (f : value -> outcome value) (l : list value) : outcome keys :=
-  ks <- mapM (fun x => k <- f x ;; Ok (k, x)) l ;;
-  if forallb (fun p => match fst p with VNum _ => true | _ => false end) ks then
-    Ok (KNum (flat_map (fun p => match fst p with VNum n => [(n, snd p)] | _ => [] end) ks))
-  else if forallb (fun p => match fst p with VStr _ => true | _ => false end) ks then
-    Ok (KStr (flat_map (fun p => match fst p with VStr s => [(s, snd p)] | _ => [] end) ks))
-  else Err EEval.
+  match l with
+  | [] => Ok (KNum [])
+  | x :: _ =>
+    k0 <- f x ;;
+    match k0 with
+    | VNum _ => ks <- mapM (num_key f) l ;; Ok (KNum ks)
+    | VStr _ => ks <- mapM (str_key f) l ;; Ok (KStr ks)
+    | _ => Err EEval
+    end
+  end.
 
 Definition type_name (v : value) : bytes :=
   match v with
@@ -138,7 +145,19 @@ Definition name_is (name : bytes) (s : String.string) : bool := bytes_eqb name (
 Arguments name_is name s%string_scope.
 
 (* the result of a well-typed call *)
+Definition arg_values (args : list sarg) : list value :=
+  flat_map (fun a => match a with SVal v => [v] | SRef _ => [] end) args.
+
 Definition apply_function (name : bytes) (args : list sarg) : outcome value :=
+  (* the two variadic functions *)
+  if name_is name "merge" then
+    (* later arguments win *)
+    Ok (VObj (fold_left (fun f v => match v with
+                                    | VObj m => fold_left (fun f kv => obj_set (fst kv) (snd kv) f) m f
+                                    | _ => f end) (arg_values args) []))
+  else if name_is name "not_null" then
+    Ok (match find not_null (arg_values args) with Some v => v | None => VNull end)
+  else
   match args with
   | [SVal (VNum n)] =>
     if name_is name "abs" then Ok (VNum (num_abs n))
@@ -148,7 +167,6 @@ Definition apply_function (name : bytes) (args : list sarg) : outcome value :=
     else if name_is name "to_number" then Ok (VNum n)
     else if name_is name "to_string" then match json_marshal (VNum n) with Some t => Ok (VStr t) | None => Err EEval end
     else if name_is name "type" then Ok (VStr (str "number"))
-    else if name_is name "not_null" then Ok (VNum n)
     else Err EEval
   | [SVal v] =>
     if name_is name "avg" then
@@ -210,8 +228,6 @@ Definition apply_function (name : bytes) (args : list sarg) : outcome value :=
       | _ => Ok VNull
       end
     else if name_is name "type" then Ok (VStr (type_name v))
-    else if name_is name "not_null" then Ok v
-    else if name_is name "merge" then Ok v
     else Err EEval
   | [SVal a; SVal b] =>
     if name_is name "contains" then
@@ -226,12 +242,6 @@ Definition apply_function (name : bytes) (args : list sarg) : outcome value :=
       match a, b with VStr s, VStr p => Ok (VBool (has_suffix s p)) | _, _ => Err EEval end
     else if name_is name "join" then
       match a, b with VStr sep, VArr l => Ok (VStr (join_bytes sep (strs_of l))) | _, _ => Err EEval end
-    else if name_is name "merge" then
-      match a, b with
-      | VObj x, VObj y => Ok (VObj (fold_left (fun f kv => obj_set (fst kv) (snd kv) f) y x))
-      | _, _ => Err EEval
-      end
-    else if name_is name "not_null" then Ok (if not_null a then a else b)
     else Err EEval
   | [SRef f; SVal (VArr l)] =>
     if name_is name "map" then ys <- mapM f l ;; Ok (VArr ys) else Err EEval
@@ -255,16 +265,7 @@ Definition apply_function (name : bytes) (args : list sarg) : outcome value :=
       | KStr ks => Ok (match first_best (fun y x => bytes_ltb (fst y) (fst x)) ks with Some p => snd p | None => VNull end)
       end
     else Err EEval
-  | _ =>
-    (* the variadic functions with more than two arguments *)
-    let vals := flat_map (fun a => match a with SVal v => [v] | SRef _ => [] end) args in
-    if name_is name "merge" then
-      Ok (VObj (fold_left (fun f v => match v with
-                                      | VObj m => fold_left (fun f kv => obj_set (fst kv) (snd kv) f) m f
-                                      | _ => f end) vals []))
-    else if name_is name "not_null" then
-      Ok (match find not_null vals with Some v => v | None => VNull end)
-    else Err EEval
+  | _ => Err EEval
   end.
 
 (* a call: unknown function, wrong arity or ill-typed argument is an error *)
@@ -286,6 +287,9 @@ Definition index_list (l : list value) (i : Z) : value :=
   let j := if i <? 0 then i + zlen l else i in
   if (0 <=? j) && (j <? zlen l) then nth (Z.to_nat j) l VNull else VNull.
 
+(* Indexing and slicing are specified for arrays of fewer than 2^63 elements (the
+   index type of every implementation); on a longer array eval signals
+   OutOfFuel, "outside the specification". *)
 Fixpoint eval (e : expr) (v : value) {struct e} : outcome value :=
   let lhs (l : option expr) : outcome value :=
       match l with Some x => eval x v | None => Ok v end in
@@ -334,11 +338,15 @@ Fixpoint eval (e : expr) (v : value) {struct e} : outcome value :=
   | ENot x => y <- eval x v ;; Ok (VBool (falsy y))
   | EIndex l i =>
     x <- lhs l ;;
-    Ok (match x with VArr xs => index_list xs i | _ => VNull end)
+    match x with
+    | VArr xs => if two63 <=? zlen xs then OutOfFuel else Ok (index_list xs i)
+    | _ => Ok VNull
+    end
   | ESlice l a b c r =>
     x <- lhs l ;;
     match x with
     | VArr xs =>
+      if two63 <=? zlen xs then OutOfFuel else
       match py_slice xs a b c with
       | Some ys => project r ys
       | None => Err EEval                 (* step 0 *)
